@@ -8,7 +8,7 @@ CFG = dict(
     model="C17",
     overlay=["sim", "c17"],
     required_theorems=["Props.C17.hash_range", "Props.C17.hash_reference_eq_java", "Props.C17.hash_consistent", "Props.C17.hash_key_range", "Props.C17.hash_key_consistent",
-                       "Props.C17.rr_run_range", "Props.C17.rr_cycle", "Props.C17.manual_identity",
+                       "Props.C17.rr_run_range", "Props.C17.rr_cycle", "Props.C17.rr_covers_all", "Props.C17.rr_window_injective", "Props.C17.manual_identity",
                        "Props.C17.partition_message_spec", "Props.C17.failed_partitioning_sends_nothing",
                        "Props.C17.custom_fallback_used",
                        "Bridge.C17.hashTail_eq", "Bridge.C17.rrPartition_eq", "Bridge.C17.routeCheck_ok", "Bridge.C17.routeCheck_err"],
@@ -22,7 +22,7 @@ CFG = dict(
 )
 CFG["manifest"] = dict(
     text="Proof: Lean theorems (for every 32-bit hash incl. 0x80000000, every partition count, every call sequence) that hash/reference-hash "
-         "choices are in range and a function of the hash, the reference variant equals the Java formula, round-robin is in range and cyclic, "
+         "choices are in range and a function of the hash, the reference variant equals the Java formula, round-robin is in range, cyclic and returns every partition exactly once in any window of n calls, "
          "and the routing decision table of partitionMessage (sent only to partitions[choice] of the offered list, otherwise a specific error and nothing sent). "
          "The arithmetic tail of hashPartitioner.Partition, roundRobinPartitioner.Partition and the checks of partitionMessage are re-translated "
          "from /repo on every run and proved equal to the model (bridge obligations); the constructors/options and the whole call are tied by "
